@@ -58,6 +58,8 @@ def run(prog, chk):
     chk.guard(c13.r135, prog, chk, "R09.7")
     chk.guard(c12.masters_force_none, prog, chk, "R09.9")
     chk.guard(check_master_isolation, prog, chk, "R09.10")
+    from .c08 import check_memo_decorators
+    chk.guard(lambda prog_, chk_: (check_memo_decorators(prog_, chk_, "R09.8", only_modules=("ufo2ft.instantiator", "ufo2ft.filters", "ufo2ft.preProcessor")), None)[1], prog, chk)
 
 
 def _is_all_glyphsets(e: ast.AST) -> bool:
@@ -487,6 +489,8 @@ def check_master_isolation(prog, chk, rule):
 
 
 MUTANTS = [
+    M("interpolated layers built once per instantiator (seeded C09e)", "ufo2ft/instantiator.py", "Instantiator.interpolated_layers",
+      "<decorate>", "functools.cached_property", rule="R09.8"),
     M("anchor propagation: one 'processed' set for all masters", "ufo2ft/filters/propagateAnchors.py", "PropagateAnchorsIFilter.filter",
       "self.context.processed[i]", "self.context.processed", rule="R09.10",
       also=(("ufo2ft/filters/propagateAnchors.py", "PropagateAnchorsIFilter.set_context", "ctx.processed = [set() for _ in range(len(ctx.glyphSets))]", "ctx.processed = set()"),)),
